@@ -564,6 +564,20 @@ func (c *Ctx) analyseCase(d *decoder, dc *decCase) {
 				if k, ok := call.Call.Args[1].(*ssa.Const); ok && k.Value != nil && k.Value.Kind() == constant.String {
 					dc.fields[constant.StringVal(k.Value)] = true
 				}
+			} else if ok {
+				// a helper of package data that assembles one entry (the case's assembly step moved out of the loop)
+				if h := call.Call.StaticCallee(); h != nil && len(h.Blocks) > 0 {
+					for _, hc := range core.CallsIn(h) {
+						if !core.IsCallTo(hc, qpPath, "MapEntry") {
+							continue
+						}
+						if k, ok := hc.Common().Args[1].(*ssa.Const); ok && k.Value != nil && k.Value.Kind() == constant.String {
+							if key := constant.StringVal(k.Value); c.assemblesKeyOnce(h, key) {
+								dc.fields[key] = true
+							}
+						}
+					}
+				}
 			}
 		}
 	}
@@ -789,6 +803,7 @@ func c09(c *Ctx) {
 	c.checkPermissions()
 	c.checkPresenceExact(encs)
 	c.checkPackedCount()
+	c.checkCallbackErrors()
 
 	// ---- R9.7
 	n97 := 0
